@@ -4,24 +4,95 @@ Lemmas for the provenance of patch commands.  Statements are fixed by Props/C02.
 import AnnetModel.Spec.Provenance
 import AnnetModel.Model.AclDiff
 import AnnetModel.Lemmas.AclDiff
+import AnnetModel.Lemmas.ProvenanceBase
 
 namespace Annet.Patch
 open Annet.Rules Annet.Diff
 
+/-- the unsorted patch tree stems from the diff, at any fuel (fuel 0 gives the empty tree) -/
+theorem makePatchUnsorted_prov (v : Vendor) (doCommit : Bool) : ∀ (fuel : Nat) (ordering : List ORule) (d : List DItem)
+    (t : PTree), makePatchUnsorted runLogic fuel v doCommit ordering (makePre d) = .ok t → ProvT v d t
+  | 0, ordering, d, t, h => by
+    simp only [makePatchUnsorted] at h
+    cases h
+    exact Prov.provT_nil v d
+  | fuel + 1, ordering, d, t, h => by
+    simp only [makePatchUnsorted] at h
+    split at h
+    · cases h
+    · next items hitems =>
+      cases h
+      apply Prov.buildTree_prov
+      intro x hx
+      obtain ⟨raw, attrs, pitems, hrule, it, hit, ys, hys, y, hy, hraw⟩ :=
+        Prov.itemsOfPre_mem _ _ _ _ _ _ _ hitems x hx
+      obtain ⟨⟨e', he', hr', ha'⟩, hitems'⟩ := Prov.makePre_inv d _ hrule
+      have hI := hitems' it hit
+      have hY := Prov.runLogic_ok v attrs it ys hys y hy
+      obtain ⟨hrow, hdir, hrr, hfc, hnone, hsome⟩ := hraw
+      refine ⟨?_, ?_⟩
+      · intro hf
+        exact ⟨e', he', by rw [ha', ← hfc]; exact hf⟩
+      · rcases hY with ⟨hd, xe, hxe, h1, h2⟩ | ⟨hd, hs, hrev, xe, hxe⟩
+        · obtain ⟨op, hop, hb⟩ := Prov.mem_changed hxe
+          obtain ⟨e, he, heop, heraw, hekey, rfl⟩ := hI op xe hb
+          refine .inl ⟨hdir.trans hd, e, he, by rw [heop]; exact hop, ?_, ?_⟩
+          · rw [hrow, h1, Prov.entryOf_row]
+          · rcases hsome _ h2 with hc | ⟨o, ho⟩
+            · rw [hc]
+              exact Prov.provT_nil v _
+            · rw [Prov.entryOf_children] at ho
+              exact makePatchUnsorted_prov v doCommit fuel o e.children _ ho
+        · obtain ⟨op, hop, hb⟩ := Prov.mem_remOrMoved hxe
+          obtain ⟨e, he, heop, heraw, hekey, rfl⟩ := hI op xe hb
+          refine .inr ⟨hdir.trans hd, e, e', he, by rw [heop]; exact hop, he', hr'.trans heraw.symm, ?_⟩
+          rw [ha', hekey, hrow]
+          exact hrev
+
 /-- every item of the patch built by `make_patch(make_pre(d))` with the common logics stems from an entry of `d` -/
 theorem patch_provenance (v : Vendor) (ordering : List ORule) (doCommit : Bool) (d : List DItem) (p : PTree)
     (h : makePatch v ordering doCommit (makePre d) = .ok p) : ProvT v d p := by
-  sorry
+  unfold makePatch makePatchWith at h
+  cases hu : makePatchUnsorted runLogic (preDepth (makePre d) + 2) v doCommit ordering (makePre d) with
+  | error e => rw [hu] at h; cases h
+  | ok t =>
+    rw [hu] at h
+    cases h
+    exact Prov.sortTree_prov v t d (makePatchUnsorted_prov v doCommit _ ordering d t hu)
 
 end Annet.Patch
 
 namespace Annet.AclDiff
 open Annet Annet.Diff
 
+mutual
+  theorem covered_markUnchanged_aux (av : Acl.Vendor) : ∀ (d : List DItem) (acl : Acl.Rules),
+      Lemmas.Covered av acl d → Lemmas.Covered av acl (markUnchanged d)
+    | [], acl, h => by rw [markUnchanged]; exact h
+    | i :: rest, acl, h => by
+      rw [markUnchanged]
+      cases h with
+      | cons hm hc hop hrest =>
+        obtain ⟨hrow, hopp, hch⟩ := covered_markItem_aux av i
+        refine .cons (by rw [hrow]; exact hm) (hch _ hc) (fun ho => hop (hopp ho))
+          (covered_markUnchanged_aux av rest acl hrest)
+  theorem covered_markItem_aux (av : Acl.Vendor) : ∀ (i : DItem),
+      (markItem i).row = i.row ∧ ((markItem i).op = .removed → i.op = .removed) ∧
+        ∀ cr, Lemmas.Covered av cr i.children → Lemmas.Covered av cr (markItem i).children
+    | .mk o r ch m => by
+      rw [markItem]
+      split
+      · refine ⟨rfl, ?_, fun cr h => covered_markUnchanged_aux av ch cr h⟩
+        show (if _ then Op.unchanged else Op.affected) = Op.removed → _
+        intro h
+        split at h <;> cases h
+      · exact ⟨rfl, id, fun _ h => h⟩
+end
+
 /-- `mark_unchanged` keeps coverage (it only relabels AFFECTED entries) -/
 theorem covered_markUnchanged (av : Acl.Vendor) (acl : Acl.Rules) (d : List DItem)
-    (h : Lemmas.Covered av acl d) : Lemmas.Covered av acl (markUnchanged d) := by
-  sorry
+    (h : Lemmas.Covered av acl d) : Lemmas.Covered av acl (markUnchanged d) :=
+  covered_markUnchanged_aux av d acl h
 
 /-- end to end: the patch `_diff_and_patch` computes under an ACL stems, item by item at every depth, from the entries
 of an ACL-filtered diff every entry of which is covered level by level (and deletable if REMOVED) -/
@@ -29,6 +100,63 @@ theorem device_patch_provenance (pv : Rules.Vendor) (av : Acl.Vendor) (acl : Acl
     (ordering : List Rules.ORule) (old new : Cfg) (r : Api.Result)
     (h : deviceModeAcl Patch.runLogic pv av acl rules ordering old new = .ok r) :
     ∃ d, Lemmas.Covered av acl d ∧ Patch.ProvT pv d r.patch := by
-  sorry
+  unfold deviceModeAcl at h
+  split at h
+  · cases h
+  · cases h
+  · next old' new' _ _ =>
+    split at h
+    · cases h
+    · next d hd =>
+      split at h
+      · cases h
+      · next p hp =>
+        cases h
+        refine ⟨d, ?_, Patch.patch_provenance pv ordering true d p hp⟩
+        unfold makeDiffAcl at hd
+        split at hd
+        · cases hd
+        · cases hd
+        · split at hd
+          · cases hd
+          · next d0 _ =>
+            split at hd
+            · cases hd
+            · next d' hd' =>
+              cases hd
+              exact covered_markUnchanged av acl d' (Lemmas.acl_diff_covered av acl d0 d' hd')
 
 end Annet.AclDiff
+
+/-! ### non-vacuity: a two-level diff whose patch is computed, with every kind of item but `commit` -/
+
+namespace Annet.Patch.ProvExample
+open Annet.Rules Annet.Diff
+
+def v : Vendor := { reverse := "no", exit := "" }
+
+def attrsOf (row : String) : PAttrs :=
+  { row := row, logic := "common.default", diffLogic := "common.default_diff", parent := false, forceCommit := false }
+
+/-- an AFFECTED block with an ADDED and a REMOVED child, and a REMOVED top-level entry -/
+def d : List DItem :=
+  [ .mk .affected "interface eth0"
+      [ .mk .added "mtu 9000" [] ⟨"mtu *", ["9000"], attrsOf "mtu *"⟩,
+        .mk .removed "description foo" [] ⟨"description *", ["foo"], attrsOf "description *"⟩ ]
+      ⟨"interface *", ["eth0"], attrsOf "interface *"⟩,
+    .mk .removed "x 1" [] ⟨"x *", ["1"], attrsOf "x *"⟩ ]
+
+/-- the patch: the block (its row is the AFFECTED entry's) with the removal of the description before the new mtu, then
+the removal of `x 1` -/
+def p : PTree := .mk
+  [ ("interface eth0", some (.mk
+      [ ("no description foo", none, ⟨.fin 0, "description *", false⟩),
+        ("mtu 9000", none, ⟨.fin 0, "mtu *", true⟩) ]), ⟨.fin 0, "interface *", true⟩),
+    ("no x 1", none, ⟨.fin 0, "x *", false⟩) ]
+
+-- (`decide +kernel`: the kernel evaluates the checker `Prov.okIs`; `rfl` / plain `decide` do not terminate in minutes)
+theorem patch_eq : makePatch v [] true (makePre d) = .ok p := Prov.okIs_sound (by decide +kernel)
+
+example : ProvT v d p := patch_provenance v [] true d p patch_eq
+
+end Annet.Patch.ProvExample
